@@ -279,6 +279,36 @@ func (i *Inst) runConnect(s *OiScript, tw *TraceWriter, rng *rand.Rand, store, u
 	case "listed2":
 		param = []string{entry(1)}
 		paramSym = [][]string{cfg.Hosts[1%len(cfg.Hosts)]}
+	case "near-otherport", "near-noport", "near-case", "near-supername":
+		// near-misses of the first configured entry that name another endpoint (or the same one in a spelling the
+		// policy does not list): same name with another port, the name alone, another letter case, a longer name
+		e0 := cfg.Hosts[0]
+		var ps []string
+		colon := -1
+		for k, x := range e0 {
+			if x == ":" {
+				colon = k
+			}
+		}
+		switch {
+		case s.Param == "near-otherport" && colon >= 0:
+			ps = append(append([]string{}, e0[:colon+1]...), "PE")
+		case s.Param == "near-noport" && colon >= 0:
+			ps = append([]string{}, e0[:colon]...)
+		case s.Param == "near-case":
+			for _, x := range e0 {
+				if x == "HL" {
+					x = "HLU"
+				}
+				ps = append(ps, x)
+			}
+		case s.Param == "near-supername" && colon >= 0:
+			ps = append(append(append([]string{}, e0[:colon]...), "0"), e0[colon:]...)
+		default:
+			ps = append([]string{}, e0...)
+		}
+		param = []string{i.Conc(ps)}
+		paramSym = [][]string{ps}
 	case "unlisted":
 		param = []string{"10.66.66.66:3389"}
 		paramSym = [][]string{{"10.66.66.66:3389"}}
@@ -292,6 +322,18 @@ func (i *Inst) runConnect(s *OiScript, tw *TraceWriter, rng *rand.Rand, store, u
 	case "qtok-unlisted":
 		param = []string{qtok([]byte(KeyQuery), QueryIssuer, "10.66.66.66:3389", 300)}
 		qOk, qSub = true, []string{"10.66.66.66:3389"}
+		paramSym = [][]string{{"qtok"}}
+	case "qtok-near":
+		// a validly signed query token whose subject is the first entry's name with another port
+		e0 := cfg.Hosts[0]
+		ps := append([]string{}, e0...)
+		if n := len(ps); n >= 2 && ps[n-2] == ":" {
+			ps[n-1] = "PE"
+		} else {
+			ps = append(ps, ":", "PE")
+		}
+		param = []string{qtok([]byte(KeyQuery), QueryIssuer, i.Conc(ps), 300)}
+		qOk, qSub = true, ps
 		paramSym = [][]string{{"qtok"}}
 	case "qtok-forged":
 		param = []string{qtok([]byte("some-other-query-key-0123456789ab"), QueryIssuer, entry(0), 300)}
